@@ -2,12 +2,13 @@
 TIE_EXTRA = {
     "graphs": {
         "gen": ["ExhaustAst.v", "Exhaust.v", "Deparse.v", "Desugar.v", "IterGraphs.v"],
-        "vo": "proofs/GenGraphs_equiv.vo",
+        "vo": "proofs/GenGraphs_total.vo",
         "theorems": [
             "gen_legal_iteration_orders_equiv", "gen_merge_add_equiv", "gen_merge_multiply_equiv",
             "gen_contains_contraction_equiv", "gen_pending_compressed_equiv", "gen_target_order_supported_equiv",
             "gen_simplify_add_equiv", "gen_merge_assignment_equiv", "gen_tensor_graphs_equiv", "gen_expr_graphs_equiv",
-            "to_iteration_graphs_equiv", "gen_internal_iff_first_graph_bad", "gen_generate_outcomes_typed_partial",
+            "gen_to_iteration_graphs_equiv", "gen_internal_iff_first_graph_bad", "gen_generate_outcomes_typed_partial",
+            "src_graphs_not_bad", "gen_generate_total", "gen_tensor_method_total",
         ],
         "source": "desugar/_to_iteration_graphs.py (+ classes of iteration_graph/iteration_graph.py, Format, TensorLayer.mode)",
         "model": "coq/model/Graphs.v (legal_iteration_orders, merge_with, simplify_add, merge_assignment, pending_compressed, "
